@@ -21,7 +21,14 @@ package signature
 
 //@ func (v UnknownReader) Read(r io.Reader) (result []byte, err error)
 
+// The reader of a nested dynamic value is the one MakeReader builds from exactly the signature
+// string just read (mkref records it): no second table from signatures to widths.
+//@ ghostfield mkref int
 //@ func (v valueReader) Read(r io.Reader) (result []byte, err error)
+//@   modifies r.mkref
+//@   call MakeReader#1: assert[C02,C03] arg0 == sig
+//@   call MakeReader#1: ghost_after r.mkref := ref(result0)
+//@   call Read#1: assert[C02,C03] ref(recv) == r.mkref
 
 //@ func (v varReader) Read(r io.Reader) (result []byte, err error)
 //@   requires v.reader != nil
@@ -171,3 +178,14 @@ package signature
 //@   nosafety
 //@   modifies everything
 //@   call MakeReader#1: assert[C02,C03] arg0 == MetaObjectSignature
+
+// Parse is the goparsec grammar (outside the engine; bounded stand-in under C07): assumed to return
+// a type description or an error.
+//@ func Parse(input string) (result Type, err error)
+//@   trusted
+//@   pure
+//@   ensures err == nil ==> result != nil
+//@ interface (t Type) Type() (result reflect.Type)
+//@   trusted
+//@   pure
+//@   ensures result != nil
